@@ -221,6 +221,12 @@ def run(check):
                 names = [c[0] for c in chain]
                 ok = names == ["iter", "rev"] and (hir.place(src) or "").endswith(".file_prefix_code")
         check.expect(ok, R2, "%s/%s" % (R2, _variant(f, n)), hir.loc(n), "file_prefix_code.iter().rev() with a fixed index", "prefix statements are not inserted by reverse iteration at a fixed index (order of the prologue changes)")
+    # a parenthesised string statement `('use strict');` is not a directive: taken out of its parentheses
+    # it becomes one and changes the strictness of the function
+    from .. import xformrules as _X
+    from ..engine import Only as _Only
+    check.rule("PAREN-KEPT", "no output position receives the bare content of an input ParenExpr: `('use strict');` at the head of a body must not be printed as the directive `'use strict';`")
+    check.guarded("PAREN-KEPT", lambda c: _X.rule_hoist_paren(_Only(c, "GROUP", "PAREN-KEPT", ("/paren-strip",))))
     return {
         "explanation": "Value-set analysis of the index argument of every statement-list insertion (provenance of the index through helpers), with the recognised correct idiom `iter().take_while(can_precede_directive).count()` over the same list.",
         "assumptions": ["Stmt::can_precede_directive (swc_ecma_ast) is true exactly for expression statements that are string literals"],
